@@ -110,6 +110,14 @@ def _late_rule_skeletons():
         "filter-with-parameters", 2, base["states"], base["choices"],
         [("utility", ["consumption", "working", "health", "wealth"], "utility"), ("next_health", ["health"], "next"), ("next_wealth", ["wealth", "consumption"], "next"), ("work_filter", ["working", "health", "threshold"], "filter")],
     )
+    out["filter-with-parameters"].filters_may_reject_everything = True  # rejected before any space is created
+    # (F11, fixed) filters that admit no combination at all: rejected when the spaces are created
+    nothing = Skel(
+        "filter-admitting-nothing", 2, base["states"], base["choices"],
+        [("utility", ["consumption", "working", "health", "wealth"], "utility"), ("next_health", ["health"], "next"), ("next_wealth", ["wealth", "consumption"], "next"), ("work_filter", ["working", "health"], "filter")],
+    )
+    nothing.filters_may_reject_everything = True
+    out["filter-admitting-no-combination"] = nothing
     return out
 
 
@@ -119,6 +127,20 @@ def late_rejection_contract(k, inst):
     with parameters are rejected with ValueError when the functions are created (get_lcm_function)."""
     skel = _late_rule_skeletons()[inst.rule]
     b = build(k, skel)
+    if inst.rule == "filter-admitting-no-combination":
+        import itertools
+
+        from .specmodel import spec_eval
+
+        combos = [{"working": w, "health": h, "_period": 0} for w, h in itertools.product(range(2), range(2))]
+        rejects_all = L.And(*[L.Not(spec_eval(k, b, "work_filter", env)) for env in combos])
+        if k.mode == "native":
+            from pyvc.contract import SkipInstance
+
+            if not bool(rejects_all):
+                raise SkipInstance("the sampled filter admits a combination")
+        else:
+            k.requires(rejects_all)
     out = k.call(model=b.model, targets="solve")
     k.ensures("rejected-with-value-error-at-creation", isinstance(out, Raised) and isinstance(out.exc, ValueError))
 
